@@ -80,10 +80,12 @@ fn judge_text(k: StrKind, s: &str, f: &mut Vec<Finding>) -> bool {
     }
 }
 
-/// Place an accepted text in the subject CN (and for IA5 in the three IA5 SAN kinds), issue, decode.
+/// Place an accepted text in the subject under every attribute type (and for IA5 in the three IA5 SAN kinds), issue, decode.
 fn judge_in_cert(k: StrKind, s: &str, ctx: &Ctx, f: &mut Vec<Finding>) -> u64 {
     let mut st = CertState::default();
-    st.dn = DnSpec(vec![(DnTypeSpec::Cn, k, s.to_string())]);
+    // the same text under every attribute type (the string kind is the caller's choice for each of them)
+    let types = [DnTypeSpec::Cn, DnTypeSpec::C, DnTypeSpec::St, DnTypeSpec::L, DnTypeSpec::O, DnTypeSpec::Ou, DnTypeSpec::Custom(vec![2, 5, 4, 5]), DnTypeSpec::Custom(vec![1, 2, 840, 113549, 1, 9, 1])];
+    st.dn = DnSpec(types.iter().map(|t| (t.clone(), k, s.to_string())).collect());
     if k == StrKind::Ia5 {
         st.sans = vec![SanSpec::Dns(s.to_string()), SanSpec::Email(s.to_string()), SanSpec::Uri(s.to_string())];
     }
@@ -105,7 +107,7 @@ fn judge_in_cert(k: StrKind, s: &str, ctx: &Ctx, f: &mut Vec<Finding>) -> u64 {
     match d.value {
         None => f.push(Finding::new("STR-DECODE-FAILED", format!("{:?}", k), format!("{:?}: {:?}", s, d.findings.first()))),
         Some(abs) => {
-            let ok = abs.subject.len() == 1 && abs.subject[0].len() == 1 && abs.subject[0][0].tag == k.tag() && abs.subject[0][0].text().as_deref() == Some(s);
+            let ok = abs.subject.len() == types.len() && abs.subject.iter().zip(types.iter()).all(|(rdn, t)| rdn.len() == 1 && rdn[0].oid == t.oid() && rdn[0].tag == k.tag() && rdn[0].text().as_deref() == Some(s));
             if !ok {
                 f.push(Finding::new("STR-CERT-TEXT", format!("{:?}", k), format!("{:?} decodes from the subject as {:?}", s, abs.subject)));
             }
@@ -134,7 +136,7 @@ fn bulk(sec: &Section, extra_states: u64) {
 
 pub fn boundary_chars() -> Vec<char> {
     let mut v: Vec<char> = [0x0u32, 0x1f, 0x20, 0x27, 0x2a, 0x40, 0x41, 0x7e, 0x7f, 0x80, 0xff, 0x100, 0xd7ff, 0xe000, 0xfffd, 0xfffe, 0xffff, 0x10000, 0x10ffff].iter().map(|u| char::from_u32(*u).unwrap()).collect();
-    v.extend(['(', '?', '=', '@', '_']);
+    v.extend(['(', '?', '=', '@', '_', ':', '.', '1']);
     v
 }
 
